@@ -151,8 +151,9 @@ def h24_after_16(ctx):
     """A 16-bit frame is decoded first, then the 24-bit frame whose top byte is zero and whose lower two bytes
     are the same bits (an event from the control device at short address 0): frames of different widths that
     agree as numbers are different frames."""
-    y = ctx.fresh("y", 0, 0xFFFF)
-    dt = ctx.fresh("dt0", 0, 8)
+    reps = (0x8000, 0xFE80, 0x01A0, 0xA300, 0xC108, 0x0100, 0x0390, 0x7F2A, 0xB1FF, 0x05E2, 0xFFFF, 0x0000)
+    y = reps[ctx.fresh_choice("y", len(reps))]      # (concrete representatives: a cache keyed by the number would
+    dt = ctx.fresh("dt0", 0, 8)                     #  hash a symbolic one)
     call(C.from_frame, F.ForwardFrame(16, y), devicetype=dt)
     x = y                                   # 24 bits: 00 : y
     return _check_decode(ctx, F.ForwardFrame(24, x), x, 24, dt, None, "h24-after-16")
